@@ -207,87 +207,8 @@ func c08(w *core.World, r *core.Report) {
 	ruleActiveCaseAgree(w, r)
 
 	// ---- ALL-ACTORS-EXCLUDED
-	r.Rule("ALL-ACTORS-EXCLUDED", 4, "when the resolvers are seeded from the intended-store index, the stored content of EVERY intent of the transaction is excluded: the filters handed to GetBranchesHighesPrecedence are built in a loop over TreeContext.GetActualOwners() with CacheUpdateFilterExcludeOwner, SetActualOwner records every owner it is given, and lowlevelTransactionSet calls it for every intent before FinishInsertionPhase.")
-	{
-		// the lookups whose result becomes a case's value (SetValue) must exclude the acting owners; a lookup that is
-		// only compared with the tree's value (was this precedence stored before the transaction?) may see everything
-		var calls []ssa.CallInstruction
-		for _, c := range core.CallsTo(pop, "tree.TreeCacheClient.GetBranchesHighesPrecedence") {
-			for _, sv := range core.CallsTo(pop, "tree.choiceCasesResolver.SetValue") {
-				for _, v := range storedInputs(sv, "tree.choicesCaseElement.value") {
-					if core.HasOrigin(v, c.Value()) {
-						calls = append(calls, c)
-						break
-					}
-				}
-			}
-		}
-		if len(calls) == 0 {
-			r.Viol("ALL-ACTORS-EXCLUDED", core.Site(pop, "GetBranchesHighesPrecedence"), w.Pos(pop.Pos()), "no index lookup feeds the case values")
-		}
-		for _, c := range calls {
-			args := core.CallArgs(c)
-			ok := false
-			if len(args) == 3 {
-				sl := core.DataSlice(pop, []ssa.Value{args[2]})
-				ok = sl.HasCallTo("tree.CacheUpdateFilterExcludeOwner") && sl.HasCallTo("tree.TreeContext.GetActualOwners")
-				if ok {
-					// the filter constructor must run once per owner: inside a loop over GetActualOwners()
-					loop := false
-					for _, fc := range core.CallsTo(pop, "tree.CacheUpdateFilterExcludeOwner") {
-						if core.OnCycle(fc) {
-							loop = true
-						}
-					}
-					ok = loop
-				}
-			}
-			r.Check(ok, "ALL-ACTORS-EXCLUDED", core.Site(pop, "filters exclude all acting owners"), w.InstrPos(c), "the index lookup must exclude every acting owner, not one")
-		}
-		set := w.Func("pkg/tree", "TreeContext", "SetActualOwner")
-		if set != nil {
-			acc := false
-			for _, st := range core.StoresToField(set, "tree.TreeContext.actualOwners") {
-				for _, oc := range core.OriginCalls(st.Val) {
-					if bi, isB := oc.Common().Value.(*ssa.Builtin); isB && bi.Name() == "append" {
-						acc = true
-					}
-				}
-			}
-			r.Check(acc, "ALL-ACTORS-EXCLUDED", core.Site(set, "accumulates owners"), w.Pos(set.Pos()), "every owner that acted on the tree must be remembered")
-		}
-		sets := core.CallsTo(low, "tree.TreeContext.SetActualOwner")
-		fin := firstCall(low, "tree.sharedEntryAttributes.FinishInsertionPhase", "tree.RootEntry.FinishInsertionPhase")
-		okSet := len(sets) >= 1 && fin != nil
-		for _, s := range sets {
-			a := core.CallArgs(s)
-			fromIntent := false
-			for _, oc := range core.OriginCalls(a[0]) {
-				if core.CalleeIs(oc, kTIGetName) {
-					fromIntent = true
-				}
-			}
-			if !fromIntent || !core.OnCycle(s) || core.CanFollow(fin, s) {
-				okSet = false
-			}
-		}
-		r.Check(okSet, "ALL-ACTORS-EXCLUDED", core.Site(low, "SetActualOwner per intent before FinishInsertionPhase"), w.Pos(low.Pos()), "every intent of the transaction must be registered as acting owner before the resolvers are populated")
-		// the first loop must register every intent: no path through the loop body skips it
-		for _, s := range sets {
-			var next *ssa.Next
-			for _, oc := range core.OriginCalls(core.CallArgs(s)[0]) {
-				for _, o := range core.Origins(core.CallRecv(oc)) {
-					if n, ok := o.(*ssa.Next); ok {
-						next = n
-					}
-				}
-			}
-			if next != nil {
-				skip, _ := core.PathQuery{Avoid: func(in ssa.Instruction) bool { return in == ssa.Instruction(s) }}.Reaches(next.Block(), core.InstrIndex(next)+1, func(in ssa.Instruction) bool { return in == ssa.Instruction(next) })
-				r.Check(!skip, "ALL-ACTORS-EXCLUDED", core.Site(low, "no intent skipped when registering owners"), w.InstrPos(s), "an intent that is not registered keeps its stale stored content in the case decision")
-			}
-		}
-	}
+	r.Rule("ALL-ACTORS-EXCLUDED", 4, "when the resolvers are seeded from the intended-store index, the stored content of EVERY intent of the transaction is excluded: the filters handed to GetBranchesHighesPrecedence are built in a loop over TreeContext.GetActualOwners() with CacheUpdateFilterExcludeOwner (or by one constructor of package tree that is handed the owners and whose closure rejects an update of ANY listed owner: 'false' on the equal outcome of the owner comparison, never 'true' on the unequal one), SetActualOwner records every owner it is given, and lowlevelTransactionSet calls it for every intent before FinishInsertionPhase.")
+	ruleAllActorsExcluded(w, r, pop, low)
 
 	// ---- DELETE-PAIR (shared with C01)
 	r.Rule("DELETE-PAIR", 1, "(shared with C01) the synthetic delete of the deactivated case addresses the same node in its device path and its store path.")
@@ -832,6 +753,182 @@ func c10(w *core.World, r *core.Report) {
 			r.Check(!dep, "RECURSE", core.Site(f, "children visited regardless of own variant"), w.InstrPos(c), "an entry with an own value (presence container) still has children to visit")
 		}
 	}
+}
+
+// ruleAllActorsExcluded (C08, C01): the stored content of every intent of the transaction is kept out of the case
+// decision.
+func ruleAllActorsExcluded(w *core.World, r *core.Report, pop, low *ssa.Function) {
+	{
+		// the lookups whose result becomes a case's value (SetValue) must exclude the acting owners; a lookup that is
+		// only compared with the tree's value (was this precedence stored before the transaction?) may see everything
+		var calls []ssa.CallInstruction
+		for _, c := range core.CallsTo(pop, "tree.TreeCacheClient.GetBranchesHighesPrecedence") {
+			for _, sv := range core.CallsTo(pop, "tree.choiceCasesResolver.SetValue") {
+				for _, v := range storedInputs(sv, "tree.choicesCaseElement.value") {
+					if core.HasOrigin(v, c.Value()) {
+						calls = append(calls, c)
+						break
+					}
+				}
+			}
+		}
+		if len(calls) == 0 {
+			r.Viol("ALL-ACTORS-EXCLUDED", core.Site(pop, "GetBranchesHighesPrecedence"), w.Pos(pop.Pos()), "no index lookup feeds the case values")
+		}
+		for _, c := range calls {
+			args := core.CallArgs(c)
+			ok := false
+			if len(args) == 3 {
+				sl := core.DataSlice(pop, []ssa.Value{args[2]})
+				ok = sl.HasCallTo("tree.CacheUpdateFilterExcludeOwner") && sl.HasCallTo("tree.TreeContext.GetActualOwners")
+				if ok {
+					// the filter constructor must run once per owner: inside a loop over GetActualOwners()
+					loop := false
+					for _, fc := range core.CallsTo(pop, "tree.CacheUpdateFilterExcludeOwner") {
+						if core.OnCycle(fc) {
+							loop = true
+						}
+					}
+					ok = loop
+				}
+				if !ok && sl.HasCallTo("tree.TreeContext.GetActualOwners") {
+					// one filter for the whole list of owners: a constructor of package tree that is handed the owners and
+					// returns a closure rejecting an update of ANY of them
+					for v := range sl.Values {
+						fc, isCall := v.(*ssa.Call)
+						if !isCall {
+							continue
+						}
+						g := fc.Call.StaticCallee()
+						if g == nil || g.Blocks == nil || g.Pkg == nil || g.Pkg.Pkg.Path() != core.Module+"/pkg/tree" {
+							continue
+						}
+						fromOwners := false
+						for _, a := range fc.Call.Args {
+							for _, oc := range core.OriginCalls(a) {
+								if core.CalleeIs(oc, "tree.TreeContext.GetActualOwners") {
+									fromOwners = true
+								}
+							}
+						}
+						if fromOwners && excludesEveryOwner(g) {
+							ok = true
+						}
+					}
+				}
+			}
+			r.Check(ok, "ALL-ACTORS-EXCLUDED", core.Site(pop, "filters exclude all acting owners"), w.InstrPos(c), "the index lookup must exclude every acting owner, not one")
+		}
+		set := w.Func("pkg/tree", "TreeContext", "SetActualOwner")
+		if set != nil {
+			acc := false
+			for _, st := range core.StoresToField(set, "tree.TreeContext.actualOwners") {
+				for _, oc := range core.OriginCalls(st.Val) {
+					if bi, isB := oc.Common().Value.(*ssa.Builtin); isB && bi.Name() == "append" {
+						acc = true
+					}
+				}
+			}
+			r.Check(acc, "ALL-ACTORS-EXCLUDED", core.Site(set, "accumulates owners"), w.Pos(set.Pos()), "every owner that acted on the tree must be remembered")
+		}
+		sets := core.CallsTo(low, "tree.TreeContext.SetActualOwner")
+		fin := firstCall(low, "tree.sharedEntryAttributes.FinishInsertionPhase", "tree.RootEntry.FinishInsertionPhase")
+		okSet := len(sets) >= 1 && fin != nil
+		for _, s := range sets {
+			a := core.CallArgs(s)
+			fromIntent := false
+			for _, oc := range core.OriginCalls(a[0]) {
+				if core.CalleeIs(oc, kTIGetName) {
+					fromIntent = true
+				}
+			}
+			if !fromIntent || !core.OnCycle(s) || core.CanFollow(fin, s) {
+				okSet = false
+			}
+		}
+		r.Check(okSet, "ALL-ACTORS-EXCLUDED", core.Site(low, "SetActualOwner per intent before FinishInsertionPhase"), w.Pos(low.Pos()), "every intent of the transaction must be registered as acting owner before the resolvers are populated")
+		// the first loop must register every intent: no path through the loop body skips it
+		for _, s := range sets {
+			var next *ssa.Next
+			for _, oc := range core.OriginCalls(core.CallArgs(s)[0]) {
+				for _, o := range core.Origins(core.CallRecv(oc)) {
+					if n, ok := o.(*ssa.Next); ok {
+						next = n
+					}
+				}
+			}
+			if next != nil {
+				skip, _ := core.PathQuery{Avoid: func(in ssa.Instruction) bool { return in == ssa.Instruction(s) }}.Reaches(next.Block(), core.InstrIndex(next)+1, func(in ssa.Instruction) bool { return in == ssa.Instruction(next) })
+				r.Check(!skip, "ALL-ACTORS-EXCLUDED", core.Site(low, "no intent skipped when registering owners"), w.InstrPos(s), "an intent that is not registered keeps its stale stored content in the case decision")
+			}
+		}
+	}
+}
+
+// excludesEveryOwner: g returns a filter closure (func(*cache.Update) bool) that rejects an update whose owner is any
+// of the owners g was given: in the closure every return that is confined to the EQUAL outcome of a comparison of
+// Update.Owner() (with an owner of the list) returns false, no return confined to the UNEQUAL outcome returns true
+// (that would accept as soon as ONE owner differs), and the remaining returns return true; or the closure returns
+// the negation of slices.Contains(owners, u.Owner()).
+func excludesEveryOwner(g *ssa.Function) bool {
+	if len(g.AnonFuncs) != 1 {
+		return false
+	}
+	cl := g.AnonFuncs[0]
+	isOwnerCall := func(v ssa.Value) bool {
+		for _, oc := range core.OriginCalls(v) {
+			if core.CalleeIs(oc, "cache.Update.Owner") {
+				return true
+			}
+		}
+		return false
+	}
+	nEq := 0
+	for _, ret := range core.Returns(cl) {
+		if len(ret.Results) != 1 {
+			return false
+		}
+		// return !slices.Contains(owners, u.Owner())
+		if v, neg := core.StripNot(ret.Results[0]); neg {
+			if c, ok := v.(*ssa.Call); ok && core.CalleeIs(c, "slices.Contains") && len(c.Call.Args) == 2 && isOwnerCall(c.Call.Args[1]) {
+				nEq++
+				continue
+			}
+		}
+		b, isConst := core.ConstBool(ret.Results[0])
+		if !isConst {
+			return false
+		}
+		confinedEq, confinedNe := false, false
+		for _, gd := range core.GuardsOf(ret) {
+			x, y, eqOnTrue, isEq := core.EqTest(gd.If.Cond)
+			if !isEq || !(isOwnerCall(x) || isOwnerCall(y)) {
+				continue
+			}
+			if gd.CondTrue() == eqOnTrue {
+				confinedEq = true
+			} else {
+				confinedNe = true
+			}
+		}
+		switch {
+		case confinedEq && !confinedNe:
+			if b {
+				return false // accepts an update of a listed owner
+			}
+			nEq++
+		case confinedNe && !confinedEq:
+			if b {
+				return false // accepts as soon as one listed owner differs: excludes nothing for two or more owners
+			}
+		default:
+			if !b && !confinedEq {
+				// a default 'false' is fine only for an empty list; treat as not understood
+				return false
+			}
+		}
+	}
+	return nEq > 0
 }
 
 // ruleBranchWhole (C08, C09): GetBranchesHighesPrecedence answers from a walk over the whole index, for this call's
